@@ -58,6 +58,7 @@ class VLoop(asyncio.BaseEventLoop):
         self.set_task_factory(self._factory)
         self.set_exception_handler(self._on_exception)
         self._installed = False
+        self._clock_jumped = False
 
     # -- BaseEventLoop plumbing -------------------------------------------------
     def time(self) -> float:  # loop clock == monotonic clock
@@ -110,16 +111,38 @@ class VLoop(asyncio.BaseEventLoop):
         """Run ready callbacks until the ready queue is empty (a *macro-step*)."""
         n = 0
         ready = self._ready
-        while ready:
-            h = ready.popleft()
-            if h._cancelled:
-                continue
-            h._run()
-            n += 1
-            if n > cap:
-                raise Livelock(f"ready queue never empties ({cap} callbacks)")
+        while True:
+            if self._clock_jumped:
+                # a callback kept the loop busy while the clock moved on (advance_busy): as in _run_once, timers that
+                # came due meanwhile are queued at the start of the next loop iteration, behind what is already ready
+                self._clock_jumped = False
+                self._queue_due_timers()
+            if not ready:
+                break
+            for _ in range(len(ready)):
+                h = ready.popleft()
+                if h._cancelled:
+                    continue
+                h._run()
+                n += 1
+                if n > cap:
+                    raise Livelock(f"ready queue never empties ({cap} callbacks)")
         self.steps_run += n
         return n
+
+    def _queue_due_timers(self) -> None:
+        end = self.time() + self._clock_resolution
+        sched = self._scheduled
+        while sched:
+            h = sched[0]
+            if h._when >= end:
+                break
+            h = heapq.heappop(sched)
+            h._scheduled = False
+            if h._cancelled:
+                self._timer_cancelled_count = max(0, self._timer_cancelled_count - 1)
+                continue
+            self._ready.append(h)
 
     def _prune_timers(self) -> None:
         sched = self._scheduled
@@ -163,6 +186,12 @@ class VLoop(asyncio.BaseEventLoop):
         """Advance the clock without firing anything (a step body that 'takes' dt seconds
         only does so when no timer is due in between; callers check that)."""
         self.vt += dt
+
+    def advance_busy(self, dt: float) -> None:
+        """The callback that is running right now 'takes' dt seconds (a slow store write, a long GC pause, a CPU-bound
+        step): the clock moves on while the loop is busy; timers that came due are run by the next loop iteration."""
+        self.vt += dt
+        self._clock_jumped = True
 
     def teardown(self) -> None:
         """Cancel every leftover task and drain, then detach.  Call only after the
